@@ -91,7 +91,27 @@ const syntheticAssets = `{
       {"uuid": "9a1b2c3d-0000-4000-8000-000000000013", "actions": [
         {"uuid": "9a1b2c3d-0000-4000-8000-000000000026", "type": "send_msg", "text": "after: @webhook.json @webhook @(parse_json(\"false\")) @(json(webhook))"}],
        "router": {"type": "switch", "operand": "@input.text", "wait": {"type": "msg"}, "cases": [], "categories": [{"uuid": "9a1b2c3d-0000-4000-8000-000000000033", "name": "All", "exit_uuid": "9a1b2c3d-0000-4000-8000-000000000043"}], "default_category_uuid": "9a1b2c3d-0000-4000-8000-000000000033"},
-       "exits": [{"uuid": "9a1b2c3d-0000-4000-8000-000000000043"}]}]}
+       "exits": [{"uuid": "9a1b2c3d-0000-4000-8000-000000000043"}]}]},
+    {"uuid": "9a1b2c3d-0000-4000-8000-000000000004", "name": "Empty", "spec_version": "13.6.0", "language": "eng", "type": "messaging", "revision": 1, "expire_after_minutes": 60, "localization": {},
+     "nodes": [{"uuid": "9a1b2c3d-0000-4000-8000-000000040001", "actions": [
+        {"uuid": "9a1b2c3d-0000-4000-8000-000000040002", "type": "call_webhook", "method": "GET", "url": "http://example.com/emptyobj", "result_name": "Hook"},
+        {"uuid": "9a1b2c3d-0000-4000-8000-000000040003", "type": "send_msg", "text": "before: @webhook.json @results.hook.extra @(parse_json(\"{}\")) @(parse_json(\"[]\")) @(json(results.hook.extra)) @(count(parse_json(\"[]\")))"}],
+       "router": {"type": "switch", "operand": "@input.text", "wait": {"type": "msg"}, "cases": [], "categories": [{"uuid": "9a1b2c3d-0000-4000-8000-000000040004", "name": "All", "exit_uuid": "9a1b2c3d-0000-4000-8000-000000040005"}], "default_category_uuid": "9a1b2c3d-0000-4000-8000-000000040004"},
+       "exits": [{"uuid": "9a1b2c3d-0000-4000-8000-000000040005", "destination_uuid": "9a1b2c3d-0000-4000-8000-000000040006"}]},
+      {"uuid": "9a1b2c3d-0000-4000-8000-000000040006", "actions": [
+        {"uuid": "9a1b2c3d-0000-4000-8000-000000040007", "type": "send_msg", "text": "after: @results.hook.extra @webhook @webhook.json @(json(webhook)) @(parse_json(\"{}\")) @(count(parse_json(\"[]\"))) @results.hook.extra"}],
+       "router": {"type": "switch", "operand": "@input.text", "wait": {"type": "msg"}, "cases": [], "categories": [{"uuid": "9a1b2c3d-0000-4000-8000-000000040008", "name": "All", "exit_uuid": "9a1b2c3d-0000-4000-8000-000000040009"}], "default_category_uuid": "9a1b2c3d-0000-4000-8000-000000040008"},
+       "exits": [{"uuid": "9a1b2c3d-0000-4000-8000-000000040009"}]}]},
+    {"uuid": "9a1b2c3d-0000-4000-8000-000000000005", "name": "Empty List", "spec_version": "13.6.0", "language": "eng", "type": "messaging", "revision": 1, "expire_after_minutes": 60, "localization": {},
+     "nodes": [{"uuid": "9a1b2c3d-0000-4000-8000-000000050001", "actions": [
+        {"uuid": "9a1b2c3d-0000-4000-8000-000000050002", "type": "call_webhook", "method": "GET", "url": "http://example.com/emptyarr", "result_name": "Hook"},
+        {"uuid": "9a1b2c3d-0000-4000-8000-000000050003", "type": "send_msg", "text": "before: @webhook.json @results.hook.extra @(parse_json(\"{}\")) @(parse_json(\"[]\")) @(json(results.hook.extra)) @(count(parse_json(\"[]\")))"}],
+       "router": {"type": "switch", "operand": "@input.text", "wait": {"type": "msg"}, "cases": [], "categories": [{"uuid": "9a1b2c3d-0000-4000-8000-000000050004", "name": "All", "exit_uuid": "9a1b2c3d-0000-4000-8000-000000050005"}], "default_category_uuid": "9a1b2c3d-0000-4000-8000-000000050004"},
+       "exits": [{"uuid": "9a1b2c3d-0000-4000-8000-000000050005", "destination_uuid": "9a1b2c3d-0000-4000-8000-000000050006"}]},
+      {"uuid": "9a1b2c3d-0000-4000-8000-000000050006", "actions": [
+        {"uuid": "9a1b2c3d-0000-4000-8000-000000050007", "type": "send_msg", "text": "after: @results.hook.extra @webhook @webhook.json @(json(webhook)) @(parse_json(\"{}\")) @(count(parse_json(\"[]\"))) @results.hook.extra"}],
+       "router": {"type": "switch", "operand": "@input.text", "wait": {"type": "msg"}, "cases": [], "categories": [{"uuid": "9a1b2c3d-0000-4000-8000-000000050008", "name": "All", "exit_uuid": "9a1b2c3d-0000-4000-8000-000000050009"}], "default_category_uuid": "9a1b2c3d-0000-4000-8000-000000050008"},
+       "exits": [{"uuid": "9a1b2c3d-0000-4000-8000-000000050009"}]}]}
   ]
 }`
 
@@ -121,7 +141,7 @@ type urlRequestor struct{}
 func (urlRequestor) Do(client *http.Client, request *http.Request) (*http.Response, error) {
 	body, status := "not found", 404
 	u := request.URL.String()
-	for _, m := range [][2]string{{"bool", "true"}, {"false", "false"}, {"obj", `{"ok":true,"n":1}`}} {
+	for _, m := range [][2]string{{"bool", "true"}, {"false", "false"}, {"obj", `{"ok":true,"n":1}`}, {"emptyobj", `{}`}, {"emptyarr", `[]`}} {
 		if strings.Contains(u, m[0]) {
 			body, status = m[1], 200
 		}
@@ -173,7 +193,7 @@ func loadJobs(dir string) []job {
 		}
 	}
 	syn := job{file: "synthetic-recipients-webhook", data: []byte(syntheticAssets), known: map[string]bool{},
-		flowUUID: []assets.FlowUUID{"9a1b2c3d-0000-4000-8000-000000000001", "9a1b2c3d-0000-4000-8000-000000000002"}}
+		flowUUID: []assets.FlowUUID{"9a1b2c3d-0000-4000-8000-000000000001", "9a1b2c3d-0000-4000-8000-000000000002", "9a1b2c3d-0000-4000-8000-000000000004", "9a1b2c3d-0000-4000-8000-000000000005"}}
 	for _, u := range uuidRe.FindAllString(syntheticAssets, -1) {
 		syn.known[u] = true
 	}
@@ -295,6 +315,42 @@ func main() {
 	httpx.SetRequestor(urlRequestor{})
 	env := envs.NewBuilder().WithAllowedLanguages("eng", "spa", "fra").WithDefaultCountry("US").Build()
 	jobs := loadJobs(*dir)
+	// what the synthetic jobs produce alone in this process while nothing else has run in it yet: compared at the very end with
+	// what they produce then - anything the sessions in between left behind in process-wide state shows as a difference
+	type pristineRun struct {
+		j   job
+		w   int
+		out string
+	}
+	var pristine []pristineRun
+	for _, j := range jobs {
+		if !strings.HasPrefix(j.file, "synthetic-") {
+			continue
+		}
+		for w := 0; w < 2*len(j.flowUUID); w++ {
+			if sa, _, err := newAssets(env, j); err == nil {
+				pristine = append(pristine, pristineRun{j, w, work(env, sa, j, w)})
+			}
+		}
+	}
+	defer func() {
+		for _, p := range pristine {
+			sa, _, err := newAssets(env, p.j)
+			if err != nil {
+				continue
+			}
+			after := work(env, sa, p.j, p.w)
+			verdict := "SAME"
+			if after != p.out {
+				verdict = "DIFF"
+				if *dump != "" {
+					os.WriteFile(*dump, []byte("--- after every other session of the process\n"+after+"\n--- in the fresh process\n"+p.out+"\n"), 0o644)
+					*dump = ""
+				}
+			}
+			fmt.Printf("%s process-state:%s worker=%d together=%s alone=%s\n", verdict, p.j.file, p.w, dig(after), dig(p.out))
+		}
+	}()
 	for round := 0; round < *rounds; round++ {
 		for _, j := range jobs {
 			sa, counter, err := newAssets(env, j)
